@@ -160,6 +160,18 @@ package m
 //@   invariant 4 no-listed-peer-yet: forall k int :: 0 <= k && k <= rangeindex && k < len(disconnected) ==> rte.Path.Hops[i+1].Router != disconnected[k]
 
 // RemoveNextHop's literal: exactly the routes with that next hop.
+// Every removal request goes through the whole table - also when the table holds no route to the address itself.
+//@ func RoutingTable.RemoveNextHop
+//@   option clausesonly
+//@   requires rt != nil
+//@   ensures every-request-scans-the-table [C11]: called("slices.DeleteFunc")
+//@   callsite slices.DeleteFunc the-whole-table [C11]: base(arg0) == base(rt.entries) && off(arg0) == off(rt.entries) && len(arg0) == len(rt.entries)
+//@ func RoutingTable.RemoveDisconnected
+//@   option clausesonly
+//@   requires rt != nil
+//@   ensures every-request-scans-the-table [C11]: called("slices.DeleteFunc")
+//@   callsite slices.DeleteFunc the-whole-table [C11]: base(arg0) == base(rt.entries) && off(arg0) == off(rt.entries) && len(arg0) == len(rt.entries)
+
 //@ func RoutingTable.RemoveNextHop$RemoveNextHop$1
 //@   requires rte != nil
 //@   ensures exactly-that-next-hop [C11]: result == (rte.NextHop == old(ip))
@@ -199,6 +211,12 @@ package m
 //@   option clausesonly
 //@   requires a != nil && b != nil
 //@   ensures buckets-are-kept-apart [C11]: (a.RoutingPrefix.Addr() != b.RoutingPrefix.Addr() || a.RoutingPrefix.Bits() != b.RoutingPrefix.Bits()) ==> result != 0
+// A cleanup always leaves the table in routing order (lookups are binary searches over that order).
+//@ func RoutingTable.Clean
+//@   option clausesonly
+//@   requires rt != nil
+//@   ensures table-left-in-routing-order [C10,C11]: called("RoutingTable.sortForRouting")
+
 // The expiry sweep of the cleanup removes only expired routes and never a direct-peer route (those disappear only
 // through a removal that names the peer).
 //@ func RoutingTable.Clean$Clean$1
@@ -209,6 +227,7 @@ package m
 //@ func RoutingTable.Clean$Clean$2
 //@   option clausesonly
 //@   requires rte != nil
+//@   ensures only-gossip-routes-are-trimmed [C11]: result ==> rte.Source == RouteSourceGossip
 //@   callsite RoutingTable.getRoutablePrefixConfig limit-of-the-rule-that-admitted-the-route [C11]: arg1 == rte.DstIP
 
 // Best-first order: destination, then fewest hops, then lowest delay.
